@@ -9,6 +9,7 @@ import (
 	"fmt"
 	"os"
 	"path/filepath"
+	"regexp"
 	"strings"
 
 	"verif/internal/chanmodel"
@@ -110,5 +111,75 @@ func (f *File) MatchSync(property string, sc *syncmodel.Scenario, class, message
 }
 
 func syncTrigger(trigger string, sc *syncmodel.Scenario, class, message string) bool {
+	return false
+}
+
+// MatchProg attributes a generated-program failure to a listed finding, or returns "". src is the (minimised)
+// main.go; clean says whether the program was generated in clean mode (where no known shape is generated, so
+// nothing can be attributed).
+func (f *File) MatchProg(property, src string, clean bool, class, message string) string {
+	if clean {
+		return ""
+	}
+	for _, k := range f.active(property) {
+		if progTrigger(k.Trigger, src, class, message) {
+			return k.ID
+		}
+	}
+	return ""
+}
+
+var (
+	reAtomIDs  = regexp.MustCompile(`"-(\d+)"`)
+	reStatic   = regexp.MustCompile(`y\.Y\(|\bt\.PM\(|\btv\.VM\(|\be\.PM\(|\be\.VM\(|y\.G\[|\bbx\.Get\(|\bbv\.Val\(|\(\*y\.T\)\.PM\(|y\.T\.VM\(|y\.Deep\(|\bly\(|y\.B\(|y\.S\(`)
+	reBlocking = regexp.MustCompile(`\bi\.PM\(|\bi\.VM\(|\bfv\(|\bmv\(|y\.FV\(|y\.Apply\(|\blk\(|\bf\d+\(|func\(\) int`)
+)
+
+// linesWithAtoms returns the lines of src that mention both atom ids named first in the message.
+func linesWithAtoms(src, message string) []string {
+	m := reAtomIDs.FindAllStringSubmatch(message, 2)
+	if len(m) < 2 {
+		return nil
+	}
+	has := func(line, id string) bool {
+		return regexp.MustCompile(`[( ]` + id + `\)`).MatchString(line)
+	}
+	var out []string
+	for _, line := range strings.Split(src, "\n") {
+		if has(line, m[0][1]) && has(line, m[1][1]) {
+			out = append(out, line)
+		}
+	}
+	return out
+}
+
+func progTrigger(trigger, src, class, message string) bool {
+	switch trigger {
+	case "static-call-before-blocking-call":
+		// F6a: D and R0 disagree on the order of two atoms of ONE statement in which a statically resolved,
+		// non-blocking call lexically precedes a call that is always compiled as blocking (interface method,
+		// function value, method value, bodyless function, call of a blocking function).
+		if class != "direct-vs-resumable" {
+			return false
+		}
+		for _, line := range linesWithAtoms(src, message) {
+			st := reStatic.FindStringIndex(line)
+			for _, bl := range reBlocking.FindAllStringIndex(line, -1) {
+				if st != nil && st[0] < bl[0] {
+					return true
+				}
+			}
+		}
+	case "keyed-literal-out-of-order":
+		// F6b: an array literal whose keyed elements are not in index order
+		if class != "direct-vs-resumable" {
+			return false
+		}
+		for _, line := range linesWithAtoms(src, message) {
+			if strings.Contains(line, "[3]int{2:") {
+				return true
+			}
+		}
+	}
 	return false
 }
